@@ -1768,6 +1768,29 @@ pub fn c18(r: &mut Rng, tier: &str) -> Vec<Case> {
             }
         }
         cases.push(c);
+        // clocks that are not on that grid: real crystals and random singles, every d dividing 1000; the value the
+        // property prescribes is the whole part of f x 1000 x d (exact arithmetic on the single's value), compared
+        // wherever the fraction is not within 0.05 of an integer (the implementation rounds twice in f32)
+        let mut c = Case::new("budget/clocks".into());
+        c.key = "budget".into();
+        c.push(sbox(St::default()), P_NONE);
+        let mut clocks: Vec<f32> = vec![3.579545, 3.5469, 2.4576, 1.7734, 4.433619, 3.58, 1.7897725, 0.0125, 3.072, 1.8432, 6.144, 7.3728, 2.1, 1.7, 4.0, 0.5];
+        for _ in 0..(if quick(tier) { 120 } else { 4000 }) {
+            // between 1 kHz and 16 MHz, random mantissa
+            let e = 117 + r.below(15) as u32;
+            clocks.push(f32::from_bits(e << 23 | (r.next() as u32 & 0x7F_FFFF)));
+        }
+        for f in clocks {
+            for d in [1u32, 2, 4, 5, 8, 10, 20, 25, 40, 50, 100, 125, 200, 250, 500, 1000] {
+                if let Some((q, robust)) = budget_exact(f.to_bits(), d) {
+                    if robust && q < (1 << 20) {
+                        c.push(Cmd::SD(d), P_NONE);
+                        c.push(Cmd::SFB(f.to_bits()), p_mem());
+                    }
+                }
+            }
+        }
+        cases.push(c);
         // and the budget that was set is the one the throttle uses
         for (n8, d) in [(1u32, 1u32), (8, 1), (16, 20), (28, 20), (17, 4)] {
             let mut s = rand_state(r);
@@ -1871,11 +1894,35 @@ pub fn c19(r: &mut Rng, tier: &str) -> Vec<Case> {
                 _ => v16(r),
             };
             s.set_pair(D, de);
-            if k % 4 == 1 {
+            let small_top = k % 8 == 7;
+            if small_top {
+                // a memory smaller than 64K: the block runs up to, across or entirely above the top address
+                // (reads there give 0, stores are dropped); searches for 0 are the interesting ones
+                let top = [0x00FFu16, 0x3FFF, 0x7FFF, 0x8000][(k / 8) % 4];
+                s.top = top;
+                s.seed = SEEDS[1 + k % 5];
+                let bc = 2 + r.below(46) as u16;
+                s.set_pair(B, bc);
+                let up = rop == 0xB0 || rop == 0xB1;
+                let hl = if up { top.wrapping_sub(r.below(bc as u64 + 4) as u16).wrapping_add(2) } else { top.wrapping_add(r.below(bc as u64 + 4) as u16).wrapping_sub(2) };
+                s.set_pair(H, hl);
+                let de = match (k / 8) % 3 {
+                    0 => if up { top.wrapping_sub(r.below(bc as u64 + 2) as u16).wrapping_add(1) } else { top.wrapping_add(r.below(bc as u64 + 2) as u16) },
+                    1 => 0x0080,
+                    _ => hl.wrapping_add(1),
+                };
+                s.set_pair(D, de);
+                if cmp {
+                    s.regs[A] = if k % 16 == 7 { 0 } else { v8(r) };
+                }
+            }
+            if k % 4 == 1 && !small_top {
                 let a = de.wrapping_add(r.u16() & 0x1F);
                 s.rom = Some((a, a.wrapping_add(r.u16() & 0xFF)));
             }
-            if !cmp && k % 22 == 0 {
+            let hl = s.pair(H);
+            let de = s.pair(D);
+            if !cmp && k % 22 == 0 && !small_top {
                 // the clear-memory idiom over a few hundred bytes, a ROM window inside the block
                 let bc2 = 0x100 + (r.u16() & 0x7F);
                 s.set_pair(B, bc2);
@@ -1885,7 +1932,7 @@ pub fn c19(r: &mut Rng, tier: &str) -> Vec<Case> {
                 s.rom = Some((a, a.wrapping_add(r.u16() & 0x1F)));
             }
             let bc = s.pair(B);
-            if cmp && k % 2 == 0 {
+            if cmp && k % 2 == 0 && !small_top {
                 // plant a match somewhere in range
                 let off = r.below(bc.max(1) as u64) as u16;
                 let at = if rop == 0xB1 { hl.wrapping_add(off) } else { hl.wrapping_sub(off) };
@@ -1894,7 +1941,7 @@ pub fn c19(r: &mut Rng, tier: &str) -> Vec<Case> {
             }
             // keep the instruction away from the touched ranges: put it in a ROM-free hole and
             // skip the case if the ranges reach it (the property's proviso)
-            let pc = 0x0040u16.wrapping_add((k as u16 % 7) * 0x2000).wrapping_add(0x1FFE * ((k as u16 / 7) % 2));
+            let pc = if small_top { 0x0010 } else { 0x0040u16.wrapping_add((k as u16 % 7) * 0x2000).wrapping_add(0x1FFE * ((k as u16 / 7) % 2)) };
             s.pc = pc;
             let touches = |start: u16, up: bool| -> bool {
                 let dist = if up { pc.wrapping_add(1).wrapping_sub(start) } else { start.wrapping_sub(pc) };
@@ -2057,6 +2104,7 @@ pub fn swr_bits(prop: &str) -> u8 {
         "C05" => 1 | 4 | 8,
         "C06" => 1 | 4 | 32,
         "C09" => 1,
+        "C10" => 1 | 4 | 8 | 64,
         _ => 0,
     }
 }
@@ -2065,6 +2113,7 @@ pub fn swr_bits(prop: &str) -> u8 {
 pub fn proj_for_sweep(prop: &str, fmask: u8) -> Proj {
     match prop {
         "C01" | "C09" => p_regs(),
+        "C10" => Proj { fmask, regs: true, sp: true, pc: true, cyc: true, ..NONE },
         "C02" => Proj { fmask, mode: Mode::Flags, ..NONE },
         "C03" => Proj { pc: true, sp: true, ..NONE },
         "C04" | "C05" => Proj { cyc: true, mode: Mode::Timing, ..NONE },
@@ -2100,7 +2149,8 @@ pub fn swr_cases(r: &mut Rng, prop: &str, rows: &[(Page, u8)], regs: &[u8], per_
                 if is_block_repeat(page, op) && w == 0 {
                     continue;
                 }
-                let fmask = if is_bit_row(page, op) { 0x53 } else { 0xD7 };
+                // C10 relates two executions of the same implementation: every flag bit counts
+                let fmask = if prop == "C10" { 0xFF } else if is_bit_row(page, op) { 0x53 } else { 0xD7 };
                 let mut c = Case::new(format!("sweep-reg/{}/{}", ["BC", "DE", "HL", "IX", "IY", "SP", "PC", "AF"][w as usize], tagof(page, op)));
                 c.key = tagof(page, op);
                 c.push(sbox(s.clone()), P_NONE);
@@ -2150,6 +2200,12 @@ pub fn sweeps_for(prop: &str, r: &mut Rng, tier: &str) -> Vec<Case> {
             let mut v = swr_cases(r, prop, &rows, &[2, 3, 4, 5], n);
             v.extend(swr_pc_cases(r, prop, 6 * n, &[0xFFFF, 0x7FFF, 0x00FF]));
             v
+        }
+        "C10" => {
+            // the model provably treats the DD and FD forms alike (C10_exec): each form of the implementation is
+            // compared with it for every value of IX, IY, HL, AF and SP
+            let rows10: Vec<(Page, u8)> = rows.iter().copied().filter(|(p, _)| matches!(p, Page::DD | Page::FD | Page::DDCB | Page::FDCB)).collect();
+            swr_cases(r, prop, &rows10, &[3, 4, 7, 2, 5], n)
         }
         "C09" => {
             let mut rows9: Vec<(Page, u8)> = vec![];
@@ -2260,6 +2316,13 @@ pub fn api_history(r: &mut Rng, tag: &str, key: &str, s: St, ops: &[(&str, u32)]
             "DA" => { c.push(Cmd::DA(near(r, &st)), hp.v); }
             "SF" => { c.push(Cmd::SF(r.pick(&[1u32, 2, 8, 16, 17, 28])), hp.v); }
             "SD" => { c.push(Cmd::SD(r.pick(&[1u32, 2, 4, 5, 8, 10, 20])), P_NONE); }
+            "SFB" => {
+                // a clock off the grid whose budget is robust for every slice duration the history may have set
+                let f = r.pick(&[3.579545f32, 3.5469, 2.4576, 4.433619, 1.7897725]);
+                if [1u32, 2, 4, 5, 8, 10, 20].iter().all(|d| matches!(budget_exact(f.to_bits(), *d), Some((_, true)))) {
+                    c.push(Cmd::SFB(f.to_bits()), hp.v);
+                }
+            }
             "PC" => { let a = near(r, &st); st.pc = a; c.push(Cmd::SetPC(a), P_NONE); }
             "REG" => { c.push(Cmd::HostReg(r.pick(&[0u8, 1, 2, 3, 4, 5, 7]), v16(r)), P_NONE); }
             "WBPC" => { c.push(Cmd::WBPC(r.below(4) as i16 - 1, r.pick(&[0x00u8, 0x76, 0xC9, 0xCD, 0xCB, 0xDD, 0xED, 0xFD, 0x3E, 0xC3, 0xFF])), P_NONE); }
@@ -2440,4 +2503,58 @@ pub fn hist_line_proj(prop: &str, cmd: &Cmd) -> Proj {
         Cmd::S(_) | Cmd::SN(_) | Cmd::SR(_) | Cmd::P(_) | Cmd::I(_) | Cmd::N | Cmd::WB(..) | Cmd::WW(..) | Cmd::ROM(..) | Cmd::CL(..) | Cmd::SD(_) | Cmd::Nap(_) => P_NONE,
         _ => vv,
     }
+}
+
+
+// ---------------------------------------------------------------------------------------------
+// instructions that straddle the top of a memory smaller than 64K (bytes above the top read as 0,
+// they do NOT come from address 0), with a non-zero image at the bottom of the memory
+// ---------------------------------------------------------------------------------------------
+pub fn straddle_cases(r: &mut Rng, prop: &str, tier: &str) -> Vec<Case> {
+    let (px, pd, pa): (Proj, Proj, Proj) = match prop {
+        "C01" => (p_regs(), p_mem(), P_NONE),
+        "C03" => (Proj { pc: true, sp: true, ..NONE }, P_NONE, P_NONE),
+        "C04" => (Proj { mode: Mode::Timing, ..NONE }, P_NONE, P_NONE),
+        "C05" => (Proj { r: false, dbg: 1, mode: Mode::Unknown, ..FULL }, p_mem(), P_NONE),
+        "C06" => (Proj { regs: true, sp: true, pc: true, ctl: true, ..NONE }, p_mem(), Proj { other: true, ..NONE }),
+        "C15" => (Proj { pc: true, ..NONE }, P_NONE, Proj { other: true, da_size_only: true, ..NONE }),
+        "C16" => (P_NONE, P_NONE, Proj { other: true, ..NONE }),
+        _ => return vec![],
+    };
+    let tops: [u16; 4] = [0x00FF, 0x7FFF, 0x8000, 0x3FFE];
+    let mut cases = vec![];
+    for (ri, (page, op)) in all_rows().into_iter().enumerate() {
+        for k in 0..4u16 {
+            let ntop = if quick(tier) { 1 } else { 4 };
+            for ti in 0..ntop {
+                let top = tops[(ri + k as usize + ti) % 4];
+                let mut s = state_for0(r, page, op);
+                let code = encode(page, op, v8(r) | 1, v8(r) | 1, v8(r) | 1);
+                s.ovr.clear();
+                s.top = top;
+                s.rom = None;
+                s.seed = SEEDS[1 + (ri + k as usize) % 5];
+                s.pc = top - k;
+                s.poke(top - k, &code);
+                s.ovr.retain(|(a, _)| *a <= top && *a >= top - k);
+                // the first bytes of the memory are what a wrong wrap would pick up: make them opcode-like
+                s.poke(0, &[r.pick(&[0x06u8, 0x3E, 0x36, 0x46, 0xCB, 0x21, 0x7E, 0x30]), v8(r) | 1, v8(r) | 1, v8(r) | 1]);
+                if s.sp > top {
+                    s.sp = top - (r.below(8) as u16);
+                }
+                let mut c = Case::new(format!("{}/straddle{}", tagof(page, op), k));
+                c.key = tagof(page, op);
+                c.push(sbox(s.clone()), P_NONE);
+                if pa != P_NONE {
+                    c.push(Cmd::DA(s.pc), pa);
+                }
+                c.push(Cmd::X, px);
+                if pd != P_NONE {
+                    c.push(Cmd::D, pd);
+                }
+                cases.push(c);
+            }
+        }
+    }
+    cases
 }
